@@ -376,7 +376,7 @@ def run(ctx):
                        "constructors' assertions, generated ids or collection mutation (Fleet::new, MultiDimLoad::new, job index lookups) — P1 is narrow.")
     ctx.assumptions += ["docs headings `### E....`/`#### E....` are the documented rule table"]
     ctx.run("C10-V1", "validate()? dominates every reader / goal-assembly call in map_to_problem", v1_validate_first, floor=4)
-    ctx.run("C10-V2", "every validation rule function is reachable from ValidationContext::validate; module validators aggregate all results", v2_rules_wired, floor=45)
-    ctx.run("C10-V3", "code literal == rule name; codes in code == codes in docs", v3_code_tables, floor=38)
-    ctx.run("C10-P1", "input-derived panics (narrow): direct unwrap/expect/index on document values are confirmed guarded; fields fed to panicking parsers are read by validation", p1_input_panics, floor=12)
+    ctx.run("C10-V2", "every validation rule function is reachable from ValidationContext::validate; module validators aggregate all results", v2_rules_wired, floor=38)
+    ctx.run("C10-V3", "code literal == rule name; codes in code == codes in docs", v3_code_tables, floor=30)
+    ctx.run("C10-P1", "input-derived panics (narrow): direct unwrap/expect/index on document values are confirmed guarded; fields fed to panicking parsers are read by validation", p1_input_panics, floor=10)
     ctx.run("C10-V4", "no Result produced in validation is dropped", v4_no_dropped_results, floor=1)
